@@ -10,7 +10,8 @@ src, res = sys.argv[1], json.load(open(sys.argv[2]))
 suite = json.load(open(sys.argv[3])) if len(sys.argv) > 3 and os.path.exists(sys.argv[3]) else {}
 meta = json.load(open(os.path.join(src, "meta.json")))
 pid = meta["property"]
-name = "%s-%s" % (pid, os.path.basename(os.path.abspath(src)))
+rnd = os.environ.get("SEED_ROUND", "")
+name = "%s-%s%s" % (pid, (rnd + "-") if rnd else "", os.path.basename(os.path.abspath(src)))
 dst = os.path.join(VERIF, "seeded", name)
 os.makedirs(dst, exist_ok=True)
 for f in os.listdir(src):
